@@ -882,7 +882,7 @@ package gkvlite
 //@ func (*Collection).writeItems
 //@   props C02 C03 C09 C07 C14
 //@   requires [C05,C18] nolocks: locks == emptyLocks()
-//@   requires t != nil && t.store != nil && t.store.file != nil && t.store.size >= 0
+//@   requires t != nil && t.store != nil && (t.store.file != nil || nloc == nil || nloc.node == nil) && t.store.size >= 0
 //@   relies acyclic: nloc != nil && nloc.node != nil ==> rank(nloc.node) >= 0 && (nloc.node.left.node != nil ==> rank(nloc.node.left.node) < rank(nloc.node)) && (nloc.node.right.node != nil ==> rank(nloc.node.right.node) < rank(nloc.node))
 //@   modifies itemLoc.loc, t.store.size, new ploc.Offset, new ploc.Length, new mem.byte, ghost fbytes, ghost flen, ghost io.fails, ghost io.writes, ghost io.minoff
 //@   decreases (nloc == nil || nloc.node == nil) ? 0 : rank(nloc.node) + 1
@@ -898,7 +898,7 @@ package gkvlite
 //@   props C02 C03 C09 C07 C14
 //@   from: C14 "node records written after their children"; C02 P2
 //@   requires [C05,C18] nolocks: locks == emptyLocks()
-//@   requires t != nil && t.store != nil && t.store.file != nil && t.store.size >= 0
+//@   requires t != nil && t.store != nil && (t.store.file != nil || nloc == nil || nloc.node == nil) && t.store.size >= 0
 //@   relies acyclic: nloc != nil && nloc.node != nil ==> rank(nloc.node) >= 0 && (nloc.node.left.node != nil ==> rank(nloc.node.left.node) < rank(nloc.node)) && (nloc.node.right.node != nil ==> rank(nloc.node.right.node) < rank(nloc.node))
 //@   modifies nodeLoc.loc, t.store.size, new ploc.Offset, new ploc.Length, new mem.byte, ghost fbytes, ghost flen, ghost io.fails, ghost io.writes, ghost io.minoff
 //@   decreases (nloc == nil || nloc.node == nil) ? 0 : rank(nloc.node) + 1
@@ -913,7 +913,7 @@ package gkvlite
 //@ func (*Collection).write
 //@   props C02 C03 C09 C07
 //@   requires [C05,C18] nolocks: locks == emptyLocks()
-//@   requires t != nil && t.store != nil && t.store.file != nil && t.store.size >= 0
+//@   requires t != nil && t.store != nil && (t.store.file != nil || nloc == nil || nloc.node == nil) && t.store.size >= 0
 //@   modifies itemLoc.loc, nodeLoc.loc, t.store.size, new ploc.Offset, new ploc.Length, new mem.byte, ghost fbytes, ghost flen, ghost io.fails, ghost io.writes, ghost io.minoff
 //@   ensures [C07] E1: io.fails >= old(io.fails) && (io.fails > old(io.fails) ==> result != nil)
 //@   ensures [C09,C03] size-monotone: t.store.size >= old(t.store.size) && io.writes >= old(io.writes)
@@ -1616,7 +1616,7 @@ package gkvlite
 //@   modifies rootNodeLoc.refs, rootNodeLoc.root, rootNodeLoc.next, rootNodeLoc.chainedCollection, rootNodeLoc.chainedRootNodeLoc, node.numNodes, node.numBytes, node.next, itemLoc.loc, itemLoc.item, nodeLoc.loc, nodeLoc.node, nodeLoc.next, mem.ptr, G.freeNodes, G.freeNodeLocs, G.freeRootNodeLocs, AllocStats.CurFreeNodes, AllocStats.FreeNodes, AllocStats.CurFreeNodeLocs, AllocStats.FreeNodeLocs, AllocStats.CurFreeRootNodeLocs, AllocStats.FreeRootNodeLocs, ghost net, ghost tvs, t.store.nodeAllocs, new ploc.Offset, new ploc.Length, new node.numNodes, new node.numBytes, new node.next, new itemLoc.loc, new itemLoc.item, new nodeLoc.loc, new nodeLoc.node, new nodeLoc.next, new Item.Key, new Item.Val, new Item.Priority, new Item.Transient, new mem.byte, ghost io.fails, ghost io.reads, ghost io.valbytes, ghost src, ghost orphans, itemLoc.loc, nodeLoc.loc, t.store.size, new ploc.Offset, new ploc.Length, new mem.byte, ghost fbytes, ghost flen, ghost io.fails, ghost io.writes, ghost io.minoff
 //@   ensures [C07] E1: io.fails >= old(io.fails) && (io.fails > old(io.fails) ==> result != nil)
 //@   ensures [C04] read-only-store-refuses: t.store.readOnly ==> result != nil && fbytes == old(fbytes) && flen == old(flen) && t.store.size == old(t.store.size) && io.writes == old(io.writes)
-//@   ensures [C07] memory-only-store-refuses: t.store.file == nil ==> result != nil && t.store.size == old(t.store.size)
+//@   ensures [C07] memory-only-store-refuses-when-there-is-something-to-write: t.store.file == nil && !old(t.store.readOnly) ==> (!isLeaf(old(tvs)[old(t.root.root)]) ==> result != nil && t.store.size == old(t.store.size))
 //@   ensures [C09,C03] size-monotone: t.store.size >= old(t.store.size) && io.writes >= old(io.writes)
 //@   ensures [C09,C03] bytes-below-old-size-unchanged: t.store.file != nil ==> samePrefix(fbytes[t.store.file], old(fbytes[t.store.file]), old(t.store.size))
 //@   ensures [C04,C01] changes-no-contents: tvs == old(tvs) && ias == old(ias) && t.root == old(t.root) && rootNodeLoc.root == old(rootNodeLoc.root)
